@@ -295,6 +295,8 @@ class Interp:
             raise Unsupported("unknown attribute %s.%s" % (ty.cls, attr))
         if ty in (TBytes, TStr) or isinstance(ty, (TList, TDict, TSet)):
             return BoundMethod(base, None, attr)
+        if ty == TInt and attr == "to_bytes":
+            return BoundMethod(base, None, attr)  # C17: int.to_bytes, described by the stub contract "int.to_bytes"
         if ty == TAny and not self.spec:
             # data attribute of an opaque external object: an unconstrained opaque value (fresh at every read, so
             # nothing is assumed about it - not even that two reads agree); may be absent
